@@ -45,6 +45,11 @@ static mut LEN: usize = 0;
 /// sampling loops terminate within a known number of iterations)
 static mut SMALL_FROM: usize = usize::MAX;
 
+/// digest from raw bytes (ByteDigest is not re-exported by the crate)
+pub fn digest_from(bytes: [u8; DN]) -> D {
+    ByteDigest::new(bytes)
+}
+
 pub fn reset() {
     unsafe {
         LEN = 0;
